@@ -1,4 +1,5 @@
 import Driver.NameMatch
+import Driver.Trace
 open Driver
 
 partial def loop (h : IO.FS.Stream) (out : IO.FS.Stream) (f : String → String) : IO Unit := do
@@ -9,7 +10,8 @@ partial def loop (h : IO.FS.Stream) (out : IO.FS.Stream) (f : String → String)
   loop h out f
 
 def commands : List (String × (String → String)) := [
-  ("namematch", namematch)
+  ("namematch", namematch),
+  ("trace", trace)
 ]
 
 def main (args : List String) : IO UInt32 := do
